@@ -115,6 +115,11 @@ S14Scns(z) ==
   {Scn(Conf(0, <<[E0 EXCEPT !.allow = al, !.deny = de]>>), {<<"r1", t, "A">> : t \in T5}, {<<"r1", "v10", "B">>}, <<Run("once")>>) :
      al \in {<<>>} \cup {<<F(s, "alt")>> : s \in AltSeqs(z)}, de \in {<<>>} \cup {<<F(s, "alt")>> : s \in AltSeqs(z)}}
 
+\* the two element alternations only (quick tier, anchored reading)
+S14Quick(z) ==
+  {Scn(Conf(0, <<[E0 EXCEPT !.allow = al, !.deny = de]>>), {<<"r1", t, "A">> : t \in T5}, {<<"r1", "v10", "B">>}, <<Run("once")>>) :
+     al \in {<<>>} \cup {<<F(s, "alt")>> : s \in {q \in AltSeqs(z) : Len(q) = 2}}, de \in {<<>>, <<F(<<"v2", "v1">>, "alt")>>}}
+
 \* ---------------------------------------------------------------- forced platform copy over an index
 BkForceScns(z) ==
   {Scn(Conf(0, <<Opt(Img1("r1", "v1"), "amd64", <<>>, bk, sw)>>), {<<"r1", "v1", "X">>}, {<<"r1", "v1", "X">>}, <<Run("once")>>) :
@@ -131,15 +136,13 @@ SharedBkSeqScns(z) ==
 \* TLC evaluates every constant level definition without parameters when it starts; the spaces
 \* above take a dummy parameter so that only the one a configuration selects is built
 CONSTANT Space
-SpaceScns == CASE Space = "quick" -> FilterScns(0) \cup DecideQuick(0) \cup RollScns(0) \cup ParScns(0) \cup RegScns(0) \cup SharedBkSeqScns(0)
-               [] Space = "filters" -> FilterScns(0)
-               [] Space = "decide" -> DecideQuick(0)
-               [] Space = "full" -> DecideFull(0)
-               [] Space = "roll" -> RollScns(0)
-               [] Space = "par" -> ParScns(0)
-               [] Space = "reg" -> RegScns(0)
-               [] Space = "s14" -> S14Scns(0)
-               [] Space = "bkforce" -> BkForceScns(0)
-               [] Space = "sharedbk" -> SharedBkScns(0)
-               [] Space = "sharedbkseq" -> SharedBkSeqScns(0)
+SpaceScns == CASE Space = "quick" -> <<FilterScns(0), DecideQuick(0), RollScns(0), ParScns(0), RegScns(0), SharedBkSeqScns(0),
+                                      BkForceScns(0), S14Quick(0)>>
+               [] Space = "gen" -> <<DecideQuick(0), RollScns(0), ParScns(0), RegScns(0)>>
+               [] Space = "full" -> <<DecideFull(0)>>
+               [] Space = "par" -> <<ParScns(0)>>
+               [] Space = "s14" -> <<S14Scns(0)>>
+               [] Space = "bkforce" -> <<BkForceScns(0)>>
+               [] Space = "sharedbk" -> <<SharedBkScns(0)>>
+               [] OTHER -> <<SharedBkSeqScns(0)>>
 =============================================================================
